@@ -21,6 +21,42 @@ def load_mutants():
     return mod.M
 
 
+def load_refactors():
+    spec = importlib.util.spec_from_file_location("refactors", os.path.join(VERIF, "sensitivity", "refactors.py"))
+    mod = importlib.util.module_from_spec(spec)
+    spec.loader.exec_module(mod)
+    return mod.R
+
+
+def run_refactor(rf, pid):
+    """behaviour-preserving rewrite: the check must stay silent"""
+    m = dict(rf, expect="<none>")
+    st, info = run_one(m, pid)
+    if st == "skipped":
+        return "skipped", info
+    if st == "missed":
+        return "silent", ""
+    return "false_alarm", info
+
+
+def refactors_main(pids):
+    rfs = load_refactors()
+    bad = 0
+    jobs = [(rf, pid) for rf in rfs for pid in rf["props"] if not pids or pid in pids]
+    with cf.ThreadPoolExecutor(max_workers=6) as ex:
+        futs = {ex.submit(run_refactor, rf, pid): (rf, pid) for rf, pid in jobs}
+        for f in cf.as_completed(futs):
+            rf, pid = futs[f]
+            st, info = f.result()
+            if st == "false_alarm":
+                bad += 1
+                print(f"FALSE-ALARM: {pid} on behaviour-preserving rewrite {rf['id']}: {info}")
+            elif st == "skipped":
+                print(f"   skipped {rf['id']} [{pid}]: {info}")
+    print(f"refactors: {len(jobs)} (rewrite, check) pairs, {bad} false alarm(s)")
+    return 1 if bad else 0
+
+
 def run_one(mut, pid):
     d = tempfile.mkdtemp(prefix="vmself-")
     try:
@@ -85,6 +121,8 @@ def run_for(pid, ctx=None, workers=6):
 
 
 def main(argv):
+    if argv and argv[0] in ("--REFACTORS", "--refactors"):
+        return refactors_main([a for a in argv[1:]])
     pids = argv or sorted({p for m in load_mutants() for p in m["props"]})
     bad = 0
     for pid in pids:
